@@ -835,6 +835,17 @@ func (bal *Balancer) balanceBlock(blkid arvados.SizedDigest, blk *BlockState) ba
 			changes = append(changes, fmt.Sprintf("%s:%d/%s=%s,%d", srv.ServiceHost, srv.ServicePort, slot.mnt.UUID, changeName[change], mtime))
 		}
 	}
+	if len(blk.Replicas) == 0 && !lost {
+		// "Lost" means 0=have<want, even if there is no
+		// writable slot where we would want a replica (all
+		// mounts read-only, or the desired storage class is
+		// not offered by any mount).
+		for _, desired := range blk.Desired {
+			if desired > 0 {
+				lost = true
+			}
+		}
+	}
 	if bal.Dumper != nil {
 		bal.Dumper.Printf("%s refs=%d needed=%d unneeded=%d pulling=%v %v %v", blkid, blk.RefCount, blockState.needed, blockState.unneeded, blockState.pulling, blk.Desired, changes)
 	}
